@@ -225,6 +225,10 @@ func (P *Prog) proveBounds(path []ast.Node, info *types.Info) (bool, string) {
 		if why, ok := P.parallelParamProver(fc, path, info, X, I); ok {
 			return true, why
 		}
+		// (d"') X and I are parameters, and every caller passes them under a guard I < len(X)
+		if why, ok := P.callerGuardProver(path, info, X, I); ok {
+			return true, why
+		}
 		// (e) I < len(X) from guards, and I >= 0
 		if fc.idxBelowLen(I, X) {
 			if fc.nonNeg(I, 0) {
@@ -928,6 +932,127 @@ func (P *Prog) parallelParamProver(fc *factCtx, path []ast.Node, info *types.Inf
 	return fmt.Sprintf("index is the key of `range %s`; %s and %s are parameters never reassigned here, and at each of the %d call site(s) of %s the argument for %s is make(…, len(<argument for %s>))", yid.Name, xid.Name, yid.Name, sites, decl.Name.Name, xid.Name, yid.Name), true
 }
 
+// callerGuardProver: X[I] where X and I are parameters of the enclosing declared function,
+// neither is reassigned (nor has its address taken) in it, the function is only ever called
+// directly, and at every call site in the module the guard facts give
+// 0 <= <argument for I> < len(<argument for X>).
+func (P *Prog) callerGuardProver(path []ast.Node, info *types.Info, X, I ast.Expr) (string, bool) {
+	xid, ok1 := X.(*ast.Ident)
+	iid, ok2 := I.(*ast.Ident)
+	if !ok1 || !ok2 {
+		return "", false
+	}
+	var decl *ast.FuncDecl
+	for _, n := range path {
+		if _, isLit := n.(*ast.FuncLit); isLit {
+			return "", false
+		}
+		if d, ok := n.(*ast.FuncDecl); ok {
+			decl = d
+		}
+	}
+	if decl == nil || decl.Body == nil || decl.Type.Params == nil {
+		return "", false
+	}
+	paramIndex := func(id *ast.Ident) int {
+		k := 0
+		for _, f := range decl.Type.Params.List {
+			for _, nm := range f.Names {
+				if info.Defs[nm] == info.Uses[id] && info.Uses[id] != nil {
+					return k
+				}
+				k++
+			}
+		}
+		return -1
+	}
+	xi, ii := paramIndex(xid), paramIndex(iid)
+	if xi < 0 || ii < 0 {
+		return "", false
+	}
+	reassigned := false
+	touches := func(e ast.Expr) bool {
+		lid, ok := e.(*ast.Ident)
+		return ok && (info.Uses[lid] == info.Uses[xid] || info.Uses[lid] == info.Uses[iid])
+	}
+	ast.Inspect(decl.Body, func(nd ast.Node) bool {
+		switch s := nd.(type) {
+		case *ast.AssignStmt:
+			for _, l := range s.Lhs {
+				if touches(l) {
+					reassigned = true
+				}
+			}
+		case *ast.IncDecStmt:
+			if touches(s.X) {
+				reassigned = true
+			}
+		case *ast.RangeStmt:
+			if s.Tok == token.ASSIGN && ((s.Key != nil && touches(s.Key)) || (s.Value != nil && touches(s.Value))) {
+				reassigned = true
+			}
+		case *ast.UnaryExpr:
+			if s.Op == token.AND && touches(s.X) {
+				reassigned = true
+			}
+		}
+		return true
+	})
+	fobj := info.Defs[decl.Name]
+	if reassigned || fobj == nil {
+		return "", false
+	}
+	sites, okAll := 0, true
+	for _, pkg := range P.Pkgs {
+		for _, file := range pkg.Syntax {
+			var stack []ast.Node
+			ast.Inspect(file, func(nd ast.Node) bool {
+				if nd == nil {
+					stack = stack[:len(stack)-1]
+					return true
+				}
+				stack = append(stack, nd)
+				id, ok := nd.(*ast.Ident)
+				if !ok || pkg.TypesInfo.Uses[id] != fobj {
+					return true
+				}
+				// the use must be the function position of a call
+				var call *ast.CallExpr
+				ci := -1
+				for k := len(stack) - 2; k >= 0 && k >= len(stack)-3; k-- {
+					if c, ok := stack[k].(*ast.CallExpr); ok {
+						if ast.Node(c.Fun) == stack[k+1] {
+							call, ci = c, k
+						}
+						break
+					}
+					if _, isSel := stack[k].(*ast.SelectorExpr); !isSel {
+						break
+					}
+				}
+				if call == nil || len(call.Args) <= xi || len(call.Args) <= ii || call.Ellipsis.IsValid() {
+					okAll = false
+					return true
+				}
+				sites++
+				rev := make([]ast.Node, 0, ci+1)
+				for k := ci; k >= 0; k-- {
+					rev = append(rev, stack[k])
+				}
+				cfc := newFactCtx(pkg.TypesInfo, rev)
+				if !cfc.idxBelowLen(call.Args[ii], call.Args[xi]) || !cfc.nonNeg(call.Args[ii], 0) {
+					okAll = false
+				}
+				return true
+			})
+		}
+	}
+	if !okAll || sites == 0 {
+		return "", false
+	}
+	return fmt.Sprintf("%s and %s are parameters never reassigned here, %s is only called directly, and at each of its %d call site(s) a dominating guard gives 0 <= <argument for %s> < len(<argument for %s>)", xid.Name, iid.Name, decl.Name.Name, sites, iid.Name, xid.Name), true
+}
+
 // madeWithLenOf: at the call, argument b is a local assigned exactly once, by
 // `b := make(T, len(a))` in the same function, with a not reassigned between that and the call.
 func madeWithLenOf(info *types.Info, stack []ast.Node, call *ast.CallExpr, b, a ast.Expr) bool {
@@ -1105,6 +1230,9 @@ func rulePanic(sc panicScope) ruleFn {
 			} else if why2, ok2 := r.positionalReducerProver(fn, path[0].(ast.Expr)); ok2 {
 				r.OK("R7.P1", name, construct, site, why2)
 				continue
+			} else if why2, ok2 := r.searchIndexProver(fn, path[0].(ast.Expr)); ok2 {
+				r.OK("R7.P1", name, construct, site, why2)
+				continue
 			} else if reason, tabled := useTable(r, boundsTable, name+"/"+construct); tabled {
 				r.Tabled("R7.P1", name, construct, site, "bounds", reason)
 				continue
@@ -1143,7 +1271,9 @@ func rulePanic(sc panicScope) ruleFn {
 					}
 					nP2++
 					construct := ".(" + shortType(x.AssertedType) + ") on " + shortType(x.X.Type())
-					if reason, ok := useTable(r, assertTable, name+"/"+construct); ok {
+					if why, ok := r.searchedElementAssert(x); ok {
+						r.OK("R7.P2", name, construct, r.P.pos(x.Pos()), why)
+					} else if reason, ok := useTable(r, assertTable, name+"/"+construct); ok {
 						r.Tabled("R7.P2", name, construct, r.P.pos(x.Pos()), "assert", reason)
 					} else {
 						r.Bad("R7.P2", name, construct, r.P.pos(x.Pos()), "single-result type assertion panics when the dynamic type differs; "+r.ctxNote(fn))
@@ -2175,6 +2305,193 @@ func ifaceCompareRisk(x *ssa.BinOp) (string, bool) {
 		return "", false
 	}
 	return "neither side is nil, a constant, a conversion from a comparable type or a package-level sentinel", true
+}
+
+// foundIndex: ia indexes the list S with the result p of a search function g(…S…) on the side
+// where p is non-negative, and every value g returns is a negative constant or an index at
+// which g itself indexed its (never reassigned) list parameter — "-1 or a position it just
+// visited". With asserted != nil the visited element must also have passed a comma-ok
+// assertion to that type on the way to the return, and nothing may touch S between the search
+// and the use.
+func (r *Run) foundIndex(ia *ssa.IndexAddr, use ssa.Instruction, asserted types.Type) (string, bool) {
+	c, ok := viaCell(ia.Index).(*ssa.Call)
+	if !ok {
+		return "", false
+	}
+	sc := c.Call.StaticCallee()
+	if sc == nil {
+		return "", false
+	}
+	g := r.P.declared(sc)
+	if g == nil || !inModule(g) || g.Blocks == nil || len(g.Params) != len(c.Call.Args) {
+		return "", false
+	}
+	var list *ssa.Parameter
+	for k, a := range c.Call.Args {
+		if a == ia.X {
+			list = g.Params[k]
+		}
+	}
+	if list == nil {
+		return "", false
+	}
+	// the use is on the non-negative side of a test of the result
+	guarded := false
+	for _, ref := range *c.Referrers() {
+		bo, ok := ref.(*ssa.BinOp)
+		if !ok || bo.Referrers() == nil {
+			continue
+		}
+		var side int // successor on which the result is >= 0
+		switch {
+		case bo.X == ssa.Value(c) && bo.Op == token.GEQ && isIntConst(bo.Y, 0), bo.X == ssa.Value(c) && bo.Op == token.GTR && isIntConst(bo.Y, -1):
+			side = 0
+		case bo.X == ssa.Value(c) && bo.Op == token.LSS && isIntConst(bo.Y, 0):
+			side = 1
+		default:
+			continue
+		}
+		for _, r2 := range *bo.Referrers() {
+			iff, ok := r2.(*ssa.If)
+			if !ok || len(iff.Block().Succs) != 2 || iff.Block().Succs[0] == iff.Block().Succs[1] {
+				continue
+			}
+			sb := iff.Block().Succs[side]
+			if len(sb.Preds) == 1 && (sb == use.Block() || sb.Dominates(use.Block())) {
+				guarded = true
+			}
+		}
+	}
+	if !guarded {
+		return "", false
+	}
+	if asserted != nil {
+		for _, ins := range allInstrs(use.Parent()) {
+			if ins == use || ins == ssa.Instruction(ia) || !instrDominates(c, ins) || !instrDominates(ins, use) {
+				continue
+			}
+			switch x := ins.(type) {
+			case *ssa.Store:
+				if a, ok := x.Addr.(*ssa.IndexAddr); ok && a.X == ia.X {
+					return "", false
+				}
+			case ssa.CallInstruction:
+				for _, a := range x.Common().Args {
+					if a == ia.X {
+						return "", false
+					}
+				}
+			}
+		}
+	}
+	// what g returns
+	visitedBefore := func(idx ssa.Value, b *ssa.BasicBlock) bool {
+		if idx.Referrers() == nil {
+			return false
+		}
+		for _, ref := range *idx.Referrers() {
+			a, ok := ref.(*ssa.IndexAddr)
+			if !ok || a.Index != idx || a.X != ssa.Value(list) {
+				continue
+			}
+			if asserted == nil {
+				if a.Block() == b || a.Block().Dominates(b) {
+					return true
+				}
+				continue
+			}
+			for _, r2 := range *a.Referrers() {
+				ld, ok := r2.(*ssa.UnOp)
+				if !ok || ld.Op != token.MUL || ld.Referrers() == nil {
+					continue
+				}
+				for _, r3 := range *ld.Referrers() {
+					ta, ok := r3.(*ssa.TypeAssert)
+					if !ok || !ta.CommaOk || ta.X != ssa.Value(ld) || !types.Identical(ta.AssertedType, asserted) {
+						continue
+					}
+					for _, r4 := range *ta.Referrers() {
+						if okv, isEx := r4.(*ssa.Extract); isEx && okv.Index == 1 {
+							for _, sb := range truthSides(okv) {
+								if len(sb.Preds) == 1 && (sb == b || sb.Dominates(b)) {
+									return true
+								}
+							}
+						}
+					}
+				}
+			}
+		}
+		return false
+	}
+	seen := map[ssa.Value]bool{}
+	var leafOK func(v ssa.Value, b *ssa.BasicBlock) bool
+	leafOK = func(v ssa.Value, b *ssa.BasicBlock) bool {
+		if k, ok := v.(*ssa.Const); ok {
+			if k.Value == nil {
+				return false
+			}
+			n, exact := constant.Int64Val(constant.ToInt(k.Value))
+			return exact && n < 0
+		}
+		if phi, ok := v.(*ssa.Phi); ok {
+			if seen[phi] {
+				return true
+			}
+			seen[phi] = true
+			for i, e := range phi.Edges {
+				if !leafOK(e, phi.Block().Preds[i]) {
+					return false
+				}
+			}
+			return true
+		}
+		return visitedBefore(v, b)
+	}
+	rets := returnsOf(g)
+	if len(rets) == 0 {
+		return "", false
+	}
+	for _, ret := range rets {
+		vals := retVals(ret)
+		if len(vals) != 1 || !leafOK(vals[0], ret.Block()) {
+			return "", false
+		}
+	}
+	why := "the index is the non-negative result of " + fnName(g) + " over the same list, which returns a negative constant or a position at which it has just indexed that list"
+	if asserted != nil {
+		why += " and found an element of the asserted type (comma-ok); the list is not touched between the search and the use"
+	}
+	return why, true
+}
+
+// searchIndexProver (P1): S[p] with p found by a search over S (foundIndex).
+func (r *Run) searchIndexProver(fn *ssa.Function, e ast.Expr) (string, bool) {
+	ie, ok := e.(*ast.IndexExpr)
+	if !ok {
+		return "", false
+	}
+	for _, ins := range allInstrs(fn) {
+		if ia, ok := ins.(*ssa.IndexAddr); ok && ia.Pos() == ie.Lbrack {
+			if why, ok := r.foundIndex(ia, ia, nil); ok {
+				return why, true
+			}
+		}
+	}
+	return "", false
+}
+
+// searchedElementAssert (P2): S[p].(T) with p found by a search over S that saw a T there.
+func (r *Run) searchedElementAssert(ta *ssa.TypeAssert) (string, bool) {
+	ld, ok := ta.X.(*ssa.UnOp)
+	if !ok || ld.Op != token.MUL {
+		return "", false
+	}
+	ia, ok := ld.X.(*ssa.IndexAddr)
+	if !ok {
+		return "", false
+	}
+	return r.foundIndex(ia, ta, ta.AssertedType)
 }
 
 // positionalReducerProver: `acc[value.F]` in the reduce function of an AsyncMapReduce call
